@@ -7,8 +7,12 @@ use super::*;
 use crate::coroutine::local::CoroutineLocal;
 use crate::coroutine::suspender::Suspender;
 
-type St = CoroutineState<(), Option<usize>>;
-type Co = Coroutine<'static, (), (), Option<usize>>;
+// The coroutine is instantiated with Yield = u8 (not the scheduler's `()`): listeners are `dyn Listener<Yield, Return>`, and at
+// the scheduler's own instantiation the pool's `CoroutineCreator` is a possible target of every listener call, which drags the
+// whole pool/scheduler/queue code into each query (10+ GB). A distinct Yield type keeps the dispatch set to the recording
+// listener, and makes the yielded payload observable.
+type St = CoroutineState<u8, Option<usize>>;
+type Co = Coroutine<'static, (), u8, Option<usize>>;
 
 // (statics have distinctive non-zero initial values and are explicitly initialised: Kani 0.68 can alias a
 // constant allocation with a static whose initial bytes are identical, see c16_io.rs)
@@ -18,6 +22,10 @@ fn vnow() -> u64 {
 }
 fn fmt_stub(_args: std::fmt::Arguments<'_>) -> String {
     String::new()
+}
+/// E6: common::page_size() asks sysconf (FFI, nondeterministic under Kani and then "negative" fails its expect)
+fn page_size_stub() -> usize {
+    4096
 }
 
 // ---- recording listener
@@ -30,7 +38,7 @@ static mut CB_RESULT: Option<Option<usize>> = None;
 
 #[derive(Debug)]
 struct Rec;
-impl Listener<(), Option<usize>> for Rec {
+impl Listener<u8, Option<usize>> for Rec {
     fn on_state_changed(&self, _: &CoroutineLocal, old: St, new: St) {
         unsafe {
             N_CHANGED += 1;
@@ -110,8 +118,8 @@ fn any_state() -> St {
     match kani::any::<u8>() % 7 {
         0 => CoroutineState::Ready,
         1 => CoroutineState::Running,
-        2 => CoroutineState::Suspend((), kani::any()),
-        3 => CoroutineState::Syscall((), any_syscall_name(), any_syscall_state()),
+        2 => CoroutineState::Suspend(kani::any(), kani::any()),
+        3 => CoroutineState::Syscall(kani::any(), any_syscall_name(), any_syscall_state()),
         4 => CoroutineState::Cancelled,
         5 => CoroutineState::Complete(any_opt()),
         _ => CoroutineState::Error("boom"),
@@ -169,7 +177,7 @@ fn total_cb() -> u32 {
 }
 
 fn new_co() -> Co {
-    let mut co: Co = Coroutine::new(Some(String::from("c07")), |_: &Suspender<(), ()>, ()| None, None, None)
+    let mut co: Co = Coroutine::new(Some(String::from("c07")), |_: &Suspender<(), u8>, ()| None, None, None)
         .expect("create coroutine");
     co.add_listener(Rec);
     co
@@ -208,6 +216,7 @@ macro_rules! c07_step {
         #[kani::unwind(4)]
         #[kani::stub(crate::common::now, vnow)]
         #[kani::stub(alloc::fmt::format, fmt_stub)]
+#[kani::stub(crate::common::page_size, page_size_stub)]
         fn $name() {
             let $co = new_co();
             let $old = any_state();
@@ -232,8 +241,29 @@ macro_rules! c07_step {
 c07_step!(c07_step_ready, |co, old| co.ready(), |o| matches!(o, CoroutineState::Ready));
 c07_step!(c07_step_running, |co, old| co.running(),
     |o| matches!(o, CoroutineState::Running | CoroutineState::Syscall(_, _, SyscallState::Callback | SyscallState::Timeout)));
-c07_step!(c07_step_suspend, |co, old| co.suspend((), kani::any()), |o| false);
-c07_step!(c07_step_syscall, |co, old| co.syscall((), any_syscall_name(), any_syscall_state()), |o| false);
+c07_step!(c07_step_suspend, |co, old| {
+    let (v, ts): (u8, u64) = (kani::any(), kani::any());
+    let r = co.suspend(v, ts);
+    if r.is_ok() {
+        kani::assert(co.state() == CoroutineState::Suspend(v, ts), "the Suspend state carries the yielded value and the requested wake-up time");
+    }
+    r
+}, |o| false);
+c07_step!(c07_step_syscall, |co, old| {
+    let (v, n, st): (u8, SyscallName, SyscallState) = (kani::any(), any_syscall_name(), any_syscall_state());
+    let r = co.syscall(v, n, st);
+    if r.is_ok() {
+        kani::assert(co.state() == CoroutineState::Syscall(v, n, st), "the Syscall state carries the requested call and phase");
+    }
+    r
+}, |o| false);
 c07_step!(c07_step_cancel, |co, old| co.cancel(), |o| false);
-c07_step!(c07_step_complete, |co, old| co.complete(any_opt()), |o| false);
+c07_step!(c07_step_complete, |co, old| {
+    let v = any_opt();
+    let r = co.complete(v);
+    if r.is_ok() {
+        kani::assert(co.state() == CoroutineState::Complete(v) && unsafe { CB_RESULT } == Some(v), "completion is reported with the body's return value");
+    }
+    r
+}, |o| false);
 c07_step!(c07_step_error, |co, old| co.error("x"), |o| false);
